@@ -2521,16 +2521,26 @@ ed_start (char *file_arg, char *write_fn, char *exit_fn, int restricted,
   if (file_arg
       && (file_arg =
           check_valid_path (file_arg, current_editor,
-                            "ed_start", 0)) && !doread (0, file_arg))
+                            "ed_start", 0)))
     {
-      setCurLn (1);
+      /* check_valid_path() hands out the master's return value, which the next apply
+       * releases, and every line printed to a snooped user is an apply (receive_snoop()).
+       * Take the name over before anything is printed. A name that does not fit is not
+       * cut: its first bytes are another file. */
+      if (strlen (file_arg) > MAXFNAME - 1)
+        {
+          ED_OUTPUT (ED_DEST, "File name too long.\n");
+          file_arg = 0;
+        }
+      else
+        {
+          strcpy (P_FNAME, file_arg);
+          file_arg = P_FNAME;
+          if (!doread (0, file_arg))
+            setCurLn (1);
+        }
     }
-  if (file_arg)
-    {
-      strncpy (P_FNAME, file_arg, MAXFNAME - 1);
-      P_FNAME[MAXFNAME - 1] = 0;
-    }
-  else
+  if (!file_arg)
     {
       ED_OUTPUT (ED_DEST, "No file.\n");
     }
